@@ -596,6 +596,11 @@ func (w *wdWorld) buildTx(t *WdTx, rv world.RelayerView, view map[uint64]*wdView
 			candRaw = world.SerializeNoWitness(world.SpendTx(f.nextSalt(), wire.NewTxOut(1, strangerScript(1))))
 			candTxid = world.DSha(candRaw)
 			ok = false
+			if t.Cand%2 == 0 {
+				// a foreign id claimed over the genuine inclusion proof of the newest voted candidate
+				candRaw = proc.raws[len(proc.raws)-1]
+				o.Classes = append(o.Classes, "foreign-id-over-genuine-proof")
+			}
 		}
 		if ci != len(proc.txids)-1 {
 			w.nt = true // finalising an earlier candidate
@@ -776,7 +781,7 @@ func genWdCase(t *rapid.T) WdCase {
 			tx.FeeDelta = rapid.SampledFrom([]int{1, 1, 5, 0, -1}).Draw(t, "feeDelta")
 			tx.SameTx = rapid.IntRange(0, 9).Draw(t, "sameTx") == 0
 			tx.Bias = rapid.IntRange(0, 2).Draw(t, "bias") > 0
-			tx.Cand = rapid.SampledFrom([]int{0, 0, 1, 2, -1}).Draw(t, "cand")
+			tx.Cand = rapid.SampledFrom([]int{0, 0, 1, 2, -1, -2}).Draw(t, "cand")
 			if rapid.IntRange(0, 2).Draw(t, "cleanFinalize") > 0 {
 				tx.Mined, tx.Pos, tx.Proof, tx.AtZero = 0, 0, 0, false
 			} else {
@@ -796,6 +801,6 @@ func TestC05_Withdrawals(t *testing.T) {
 	RunProp(t, Prop[WdCase]{
 		ID: "C05", Name: "lifecycle", Quick: 640, Thor: 10_000,
 		Gen: genWdCase, Run: runWdCase,
-		Rule: "histories of 5-40 blocks: execution-layer requests Withdraw (fresh id; P2WPKH/P2WSH/P2TR/P2PKH/P2SH of the configured network, garbage, pay-to-pubkey hex, other-network address; amount; maximum fee rate), fee updates and cancellations over earlier ids, and relayer messages Process (1-5 ids of any status with duplicates; per output right/wrong script, value below/equal/above the request; 0/1/2 extra outputs paying the current key, an old key, the key rotated out by an earlier voted NewPubkey of the same history, or a stranger; fee giving a rate below/at/above the tightest maximum), Replace (fee lower/equal/higher, identical transaction), Finalize (original / fee-bumped / foreign txid; block voted / not voted / wrong header; position true / 0 / alias / neighbour / mined as first transaction; proof genuine / flipped / empty) and ApproveCancellation, all with honest votes; reference state machine decides every transaction and every Query/Withdrawal record; per id the paid/refund notices received by the fake execution layer are <= 1 at all times, = 1 after a drain iff terminal, of the right kind and with the finalised candidate's txid/output/amount; non-trivial = some id received >= 2 competing actions, a duplicate id in a batch, or an earlier candidate finalised; evaluations count blocks",
+		Rule: "histories of 5-40 blocks: execution-layer requests Withdraw (fresh id; P2WPKH/P2WSH/P2TR/P2PKH/P2SH of the configured network, garbage, pay-to-pubkey hex, other-network address; amount; maximum fee rate), fee updates and cancellations over earlier ids, and relayer messages Process (1-5 ids of any status with duplicates; per output right/wrong script, value below/equal/above the request; 0/1/2 extra outputs paying the current key, an old key, the key rotated out by an earlier voted NewPubkey of the same history, or a stranger; fee giving a rate below/at/above the tightest maximum), Replace (fee lower/equal/higher, identical transaction), Finalize (original / fee-bumped / foreign txid, also claimed over the genuine proof of the newest candidate; block voted / not voted / wrong header; position true / 0 / alias / neighbour / mined as first transaction; proof genuine / flipped / empty) and ApproveCancellation, all with honest votes; reference state machine decides every transaction and every Query/Withdrawal record; per id the paid/refund notices received by the fake execution layer are <= 1 at all times, = 1 after a drain iff terminal, of the right kind and with the finalised candidate's txid/output/amount; non-trivial = some id received >= 2 competing actions, a duplicate id in a batch, or an earlier candidate finalised; evaluations count blocks",
 	})
 }
